@@ -38,6 +38,11 @@ pub fn stark_verify<Layout: LayoutTrait>(
         witness.composition_witness.to_owned(),
     )?;
 
+    // Evaluation domains of size greater than 2**64 are not supported (see queries_to_points).
+    if stark_domains.log_eval_domain_size > Felt::from(64u64) {
+        return Err(Error::EvalDomainTooLarge);
+    }
+
     // Compute query points.
     let points = queries_to_points(queries, stark_domains);
 
@@ -77,6 +82,9 @@ pub enum Error {
 
     #[error("TableDecommit Error")]
     TableDecommitError(#[from] swiftness_commitment::table::decommit::Error),
+
+    #[error("evaluation domain larger than 2^64")]
+    EvalDomainTooLarge,
 }
 
 #[cfg(not(feature = "std"))]
@@ -93,4 +101,7 @@ pub enum Error {
 
     #[error("TableDecommit Error")]
     TableDecommitError(#[from] swiftness_commitment::table::decommit::Error),
+
+    #[error("evaluation domain larger than 2^64")]
+    EvalDomainTooLarge,
 }
